@@ -311,7 +311,10 @@ def c02_defs(rng, thorough):
             st('abc'), cat(ch('a'), ch('b'), ch('c')), ('var', 'v', alt(ch('a'), plus(ch('b')))), alt(ch('a'), plus(ch('b'))),
             cat(star(alt(ch('a'), st('bb'))), ch('c')), cat(opt(star(ch('a'))), ch('b')), cat(star(opt(ch('a'))), ch('b')),
             cat(ANY, cs(('a', 'c')), ch('b')), alt(cat(ch('a'), ANY), cat(cs(('a', 'b')), ch('x')), cat(ANY, ch('y'))),
-            diff(cs(('a', 'z')), cs(('c', 'x'))), cat(diff(ANY, ch('a')), opt(ch('a')))]
+            diff(cs(('a', 'z')), cs(('c', 'x'))), cat(diff(ANY, ch('a')), opt(ch('a'))),
+            # string literals with multi-byte characters (first, middle, last position) next to their concatenations
+            st('\u03bb'), ch('\u03bb'), st('a\u03bb'), cat(ch('a'), ch('\u03bb')), st('\u03bba'), st('\u2192\u2200'), cat(st('x\u00e9'), opt(ch('y'))),
+            alt(st('\U00010348z'), st('z\U00010348')), plus(st('\u00e9'))]
     for j, r in enumerate(laws):
         lets = [('v', alt(ch('a'), plus(ch('b'))))] if 'var' in repr(r) else []
         defs.append(Def('law%d' % j, [('Init', [Rule(r, 'tok')])], lets=lets, tags=['C02']))
